@@ -36,3 +36,5 @@ prop('C18', ['T1', 'T2', 'F8', 'T5', 'T6', 'K7py', 'T3'], 'twins', ['all inputs'
 
 prop('C19', ['DC1', 'DC2', 'DC3', 'DC4', 'DC5', 'G4', 'F8'], 'dataclasses', ['all layouts'])
 prop('C20', ['R1', 'R2', 'R3', 'F1'], 'ravel', ['numerical inverse'])
+
+prop('CX4', ['K3', 'K4', 'K7', 'M1', 'M2', 'M3', 'M6', 'M7', 'T4'], 'tmp', [])
